@@ -110,25 +110,46 @@ pub fn run(ctx: &mut Ctx) {
                 let layer = UnitsFile { default_system: None, si: None, fractions: None, extend: Some(Extend { precedence: Default::default(), units: m }), quantity: vec![] };
                 Converter::builder().with_bundled_units().ok()?.with_units_file(layer).ok()?.finish().ok()
             };
+            // the bundled units with the minute renamed (no unit answers to `min` any more)
             let renamed = || {
-                let mut m = std::collections::HashMap::new();
-                m.insert("minute".to_string(), ExtendUnitEntry { names: Some(vec!["minuto".into(), "minutos".into()]), symbols: Some(vec!["mn".into()]), aliases: Some(vec![]), ..Default::default() });
-                let layer = UnitsFile { default_system: None, si: None, fractions: None, extend: Some(Extend { precedence: cooklang::convert::units_file::Precedence::Override, units: m }), quantity: vec![] };
-                Converter::builder().with_bundled_units().ok()?.with_units_file(layer).ok()?.finish().ok()
+                use cooklang::convert::units_file::{BestUnits, Units};
+                let mut file = UnitsFile::bundled();
+                for group in &mut file.quantity {
+                    if group.quantity != cooklang::convert::PhysicalQuantity::Time { continue; }
+                    let entries: Vec<&mut cooklang::convert::units_file::UnitEntry> = match &mut group.units {
+                        Some(Units::Unified(v)) => v.iter_mut().collect(),
+                        Some(Units::BySystem { metric, imperial, unspecified }) => metric.iter_mut().chain(imperial.iter_mut()).chain(unspecified.iter_mut()).collect(),
+                        None => vec![],
+                    };
+                    let mut best: Vec<String> = Vec::new();
+                    for e in entries {
+                        if e.symbols.iter().any(|x| &**x == "min") || e.names.iter().any(|x| &**x == "minute") {
+                            e.names = vec!["minuto".into(), "minutos".into()]; e.symbols = vec!["mn".into()]; e.aliases = vec![];
+                        }
+                        if let Some(k) = e.symbols.first().or(e.names.first()) { best.push(k.to_string()); }
+                    }
+                    if group.best.is_some() { group.best = Some(BestUnits::Unified(best)); }
+                }
+                Converter::builder().with_units_file(file).ok()?.finish().ok()
             };
             let kinds: Vec<Box<dyn Fn() -> Option<Converter>>> = vec![Box::new(|| Some(Converter::bundled())), Box::new(rebased_time), Box::new(renamed), Box::new(|| Some(Converter::empty())),
                 Box::new(|| crate::props::c09::alt_world().map(|w| w.conv))];
             let probes = ["---\nprep time: 20 min\n---\nx\n", "---\nprep time: 20 minutos\ncook time: 1 h\n---\nx\n", ">> time: 1 hour 30 min\n\nWait ~{5%min} and ~{2%mn}.\n", "---\ntime: 90 min\n---\n@a{1%kg} ~{1%h}\n", ">> cook time: 2 horas\n"];
             // reference: one parser per converter, all alive at the same time (so each at its own place)
             let ref_parsers: Vec<Option<Box<CooklangParser>>> = kinds.iter().map(|k| k().map(|c| Box::new(CooklangParser::new(ext, c)))).collect();
-            let mut reference: Vec<Option<Vec<String>>> = ref_parsers.iter().map(|p| p.as_ref().map(|p| probes.iter().map(|s| image(p, s)).collect())).collect();
+            // (the image here also carries what the time / servings accessors of the returned metadata say under the parser's converter)
+            let image_e = |p: &CooklangParser, s: &str| -> String {
+                let acc = std::panic::catch_unwind(std::panic::AssertUnwindSafe(|| { let r = p.parse(s); r.output().map(|o| format!("{:?}|{:?}", o.metadata.time(p.converter()), o.metadata.servings())).unwrap_or_default() })).unwrap_or_else(|_| "PANIC".into());
+                format!("{}\u{1}{acc}", image(p, s))
+            };
+            let mut reference: Vec<Option<Vec<String>>> = ref_parsers.iter().map(|p| p.as_ref().map(|p| probes.iter().map(|s| image_e(p, s)).collect())).collect();
             let mut slot = CooklangParser::new(ext, Converter::empty());
             let n_alt = if ctx.thorough { 400 } else { 40 };
             for step in 0..n_alt {
                 let k = if step < kinds.len() { step } else { rng.below(kinds.len()) };
                 let Some(conv) = kinds[k]() else { continue };
                 slot = CooklangParser::new(ext, conv);
-                let imgs: Vec<String> = probes.iter().map(|p| image(&slot, p)).collect();
+                let imgs: Vec<String> = probes.iter().map(|p| image_e(&slot, p)).collect();
                 ctx.eval("", false);
                 match &reference[k] {
                     None => reference[k] = Some(imgs),
